@@ -158,7 +158,7 @@ def Case.world (c : Case) : World := { addr := fun x => c.addr.getD x 0 }
 
 def Case.run (c : Case) : String :=
   let C : Ctx := { W := c.world, colls := c.colls }
-  let (t, s) := seqRun c.script 100000 { env := c.env } (program C c.prog {})
+  let (t, s) := seqRun c.script 100000 { env := c.env, np := c.np, seenPoison := List.replicate c.np false } (program C c.prog {})
   c.id ++ ";" ++ " ".intercalate (s.trace.reverse.map TEv.text) ++ ";" ++ t.text ++ ";" ++
     finalText c.n c.np s.env
 
